@@ -148,6 +148,14 @@ def gen_package(rng, force_site=None):
         if rng.random() < 0.2: extra += ' style:data-style-name="%s"' % rng.choice(clash)                     # a data style: not a style:style
         g.style('s', n, fam[('s', n)], extra); seen_s.append(n)
     g.desc['clash'] = [(c, fam[('c', c)], fam[('s', c)]) for c in clash]
+    # a list style of styles.xml (after the definitions, so that what it names has been read) whose levels name a colliding style
+    # for the number or the bullet: text:style-name on a list level is a reference to a style:style like any other
+    if force_site is None and rng.random() < 0.6:
+        lv = rng.choice(clash)
+        g.styles_auto.append('<text:list-style style:name="LLv" style:display-name="%s"><text:list-level-style-number text:level="1" xml:id="%s" text:style-name="%s" style:num-format="1"/>'
+                             '<text:list-level-style-bullet text:level="2" xml:id="%s" text:style-name="%s" text:bullet-char="-"/></text:list-style>' % (g.mark('ls'), g.mark('r'), lv, g.mark('r'), lv))
+        g.site('M', 'text:list', 'text:style-name', 'LLv')
+        g.desc['sites'].append(('S', 'text:list-level-style-number', 'text:style-name', lv))
     # reference sites
     def sites_for(where, names_by_family, scope_names):
         for n in scope_names:
